@@ -147,4 +147,4 @@ def c14(a):
                        "change may lie in between, the item must be a change or a recorded transition and carry the "
                        "info in force from it on; a finished iterator must have no change left. Iterators are driven with "
                        "an item bound and a no-progress guard (a non-terminating iterator is a violation, not a hang).",
-                       extra=["--right", "1"])
+                       extra=["--right", "1"] + (["--max-bundled", "80"] if a.tier == "quick" else []))
